@@ -250,6 +250,12 @@ static void op_eval(struct arg *a, int n, FILE *out) {
 	if (config_parse(&cl, confpath, &env) || VECTOR_LENGTH(cl.cl_list) == 0) { fputs("CONFERR", out); return; }
 	snprintf(dirpath, sizeof(dirpath), "%s/%s", tdir, (const char *)a[2].p);
 	snprintf(fpath, sizeof(fpath), "%s/%s", dirpath, (const char *)a[3].p);
+	{
+		/* <subdir> may name any directory below the scratch directory (a maildir called like template syntax): create what is missing */
+		char *q;
+		for (q = dirpath + strlen(tdir) + 1; (q = strchr(q, '/')) != NULL; q++) { *q = '\0'; (void)mkdir(dirpath, 0700); *q = '/'; }
+		(void)mkdir(dirpath, 0700);
+	}
 	fputs("PATH ", out); hexs(out, fpath);
 	fputs(" AST", out);
 	dump_expr(out, cl.cl_list[0].expr);
@@ -391,10 +397,31 @@ static void op_ast(struct arg *a, int n, FILE *out) {
 
 /* small pure functions: time.c, flags, paths */
 static void op_small(const char *op, struct arg *a, int n, FILE *out) {
+#ifndef HARNESS_NO_STATICS
 	if (strcmp(op, "tzoff") == 0 && n == 1) {
 		time_t tz = 0;
 		if (tzoff((const char *)a[0].p, &tz)) fputs("NONE", out); else fprintf(out, "OK %lld", (long long)tz);
-	} else if (strcmp(op, "tparse") == 0 && n >= 2) {
+	} else if (strcmp(op, "timeparse") == 0 && n == 1) {
+		/* timeparse <string>: timeparse() of time.c (the loop over formats[]) after the memset of time_parse() */
+		struct tm tm;
+		const char *end;
+		memset(&tm, 0, sizeof(tm));
+		end = timeparse((const char *)a[0].p, &tm);
+		if (end == NULL) fputs("NONE", out);
+		else fprintf(out, "OK %ld %d %d %d %d %d %d", (long)(end - (const char *)a[0].p), tm.tm_year + 1900, tm.tm_mon, tm.tm_mday,
+		    tm.tm_hour, tm.tm_min, tm.tm_sec);
+	} else
+#endif
+	if (strcmp(op, "strp") == 0 && n == 2) {
+		/* strp <format> <string>: the platform's strptime on a zeroed struct tm */
+		struct tm tm;
+		const char *end;
+		memset(&tm, 0, sizeof(tm));
+		end = strptime((const char *)a[1].p, (const char *)a[0].p, &tm);
+		if (end == NULL) fputs("NONE", out);
+		else fprintf(out, "OK %ld %d %d %d %d %d %d", (long)(end - (const char *)a[1].p), tm.tm_year + 1900, tm.tm_mon, tm.tm_mday,
+		    tm.tm_hour, tm.tm_min, tm.tm_sec);
+	} else if ((strcmp(op, "tparse") == 0 || strcmp(op, "tparsec") == 0) && n >= 2) {
 		/* tparse <date> <now> [<TZ> | ~ for unset] */
 		struct environment env;
 		struct tm *tm;
